@@ -35,6 +35,11 @@ type scanWireCase struct {
 func scanWireRun(c scanWireCase) Outcome {
 	var o Outcome
 	res := inBubble(theT, func() { o = scanWireInBubble(c) })
+	if res.Frozen != "" && strings.Contains(res.Frozen, "(*scanner).Close") {
+		// (a goroutine parked on a mutex freezes the bubble's clock: after 40 s of real time Close is still
+		// waiting for a lock somebody holds across a wait - nothing in the harness takes locks of the scanner)
+		return viol("client-stuck@scanner-close", "Close is parked on a lock of the scanner (renewal interval %d ms, renewals unanswered: %v):\n%s", c.End.RenewMS, c.End.RenewSilent, res.Frozen)
+	}
 	if o, stuck := stuckVerdict(res); stuck {
 		return o
 	}
@@ -62,6 +67,7 @@ func scanWireInBubble(c scanWireCase) (out Outcome) {
 	}
 	ss := sim.NewScanServer(rows, spec.Tape)
 	ss.SilentAfter = c.SilentAfter
+	ss.HoldRenews = c.End.RenewSilent
 	if c.End.Kind == "error" {
 		ss.FailOn = c.End.FailOn
 	}
@@ -221,6 +227,14 @@ func scanWireInBubble(c scanWireCase) (out Outcome) {
 			time.Sleep(time.Duration(c.End.SleepMS) * time.Millisecond)
 		}
 	}
+	if c.End.Kind == "close" && c.End.RenewSilent && c.End.RenewMS > 0 && !ended {
+		// wait until a renewal is on its way (it will never be answered)
+		time.Sleep(time.Duration(c.End.RenewMS)*time.Millisecond + time.Millisecond)
+		synctest.Wait()
+		if ss.RenewCount() > 0 {
+			out.Labels = append(out.Labels, "close_while_renewal_in_flight")
+		}
+	}
 	closeAt := time.Now()
 	switch c.End.Kind {
 	case "close":
@@ -346,6 +360,7 @@ func scanWireGen(t *rapid.T, endings []string) scanWireCase {
 		c.End.RenewMS = rapid.SampledFrom([]int{5, 50, 1000}).Draw(t, "renewms")
 		c.End.SleepMS = rapid.SampledFrom([]int{0, 1, 7, 120, 3000}).Draw(t, "sleepms")
 		c.End.IdleAfterEnd = rapid.Bool().Draw(t, "idle")
+		c.End.RenewSilent = c.End.Kind == "close" && rapid.Bool().Draw(t, "renewsilent")
 	}
 	return c
 }
